@@ -1,6 +1,7 @@
 package main
 
 import (
+	"os/exec"
 	"encoding/json"
 	"flag"
 	"fmt"
@@ -69,6 +70,8 @@ func main() {
 		os.Exit(cmdCheck(os.Args[2:]))
 	case "dump":
 		os.Exit(cmdDump(os.Args[2:]))
+	case "replay":
+		os.Exit(cmdReplay(os.Args[2:]))
 	default:
 		fmt.Fprintln(os.Stderr, "unknown command", os.Args[1])
 		os.Exit(2)
@@ -113,6 +116,49 @@ func selectContracts(w *World, cfg *PropertyConfig) []*FuncContract {
 	}
 	sort.Slice(out, func(i, j int) bool { return out[i].Key < out[j].Key })
 	return out
+}
+
+// cmdReplay re-runs the replay recorded in a replay file (the command under "replay": an in-package test injected
+// with go test -overlay against the real code) and prints what it reports. Exit 1 when the failure shows again.
+func cmdReplay(args []string) int {
+	fs := flag.NewFlagSet("replay", flag.ExitOnError)
+	fs.String("property", "", "property id")
+	file := fs.String("file", "", "replay file")
+	fs.Parse(args)
+	data, err := os.ReadFile(*file)
+	if err != nil {
+		fmt.Fprintln(os.Stderr, err)
+		return 2
+	}
+	var rec map[string]any
+	if err := json.Unmarshal(data, &rec); err != nil {
+		fmt.Fprintln(os.Stderr, err)
+		return 2
+	}
+	fmt.Printf("obligation: %v\nverdict: %v\n", rec["obligation"], rec["verdict"])
+	command, _ := rec["replay"].(string)
+	if command == "" {
+		fmt.Println("no replayable input was recorded for this obligation (solver output: ", rec["solver_status"], rec["solver_detail"], ")")
+		return 0
+	}
+	cmd := exec.Command("sh", "-c", command)
+	cmd.Dir = verifDir
+	out, _ := cmd.CombinedOutput()
+	failed := false
+	for _, line := range strings.Split(string(out), "\n") {
+		if strings.Contains(line, "REPLAY-RESULT ") || strings.Contains(line, "BOUNDED-RESULT ") {
+			fmt.Println(line)
+			if strings.Contains(line, "\"violated\":true") || (strings.Contains(line, "\"failures\":[") && !strings.Contains(line, "\"failures\":[]")) {
+				failed = true
+			}
+		}
+	}
+	if failed {
+		fmt.Println("the failure shows again on the real code")
+		return 1
+	}
+	fmt.Println("the failure does not show")
+	return 0
 }
 
 func cmdDump(args []string) int {
